@@ -28,7 +28,8 @@ pub fn wf5_ok(s: &GenState) -> bool {
     }
     s.insts.iter().all(|a| match &a[0] {
         Ty::Prim(p) => p.is_unsigned(),
-        Ty::Named(d, _) => *d == G_N || *d == G_M || *d == G_H,
+        // single-unsigned-field structs (they get CompactAs); a generic wrapper such as H<u8> does not
+        Ty::Named(d, _) => *d == G_N || *d == G_M,
         _ => false,
     })
 }
